@@ -163,6 +163,8 @@ def check(script, violate, dist=None, expect_accept=False, timeout=20):
                 raise
             except Exception as e:  # noqa: BLE001
                 key = classify_internal(e)
+                if expect_accept and not key.startswith('exec-at-parse'):
+                    key = 'grammar-script-rejected'   # a well-formed script has no stray braces / missing `=`
                 tag = 'internal:' + type(e).__name__
                 violate(key, f'parse_model raised {type(e).__name__} (not one of its own errors): {str(e)[:120]}')
     except _Timeout:
